@@ -1208,12 +1208,61 @@ fn one_case(r: &mut Rng, silent: &Arc<Mutex<Option<String>>>) -> Case {
     if nslots > 0 {
         cfg = cfg.with_direct_descriptors(nslots);
     }
-    let ring = cfg.build().expect("ring on the simulated kernel");
+    let mut ring = cfg.build().expect("ring on the simulated kernel");
     let ring_fd = simk::with(|s| {
         s.default_cancelable = false;
         s.fd
     });
     let sq = ring.sq();
+    // One history in eight starts with an accept whose address type does not fit what the kernel
+    // reports (accept::<SocketAddrV4>() and an address of 28 bytes): the conversion of the address
+    // may panic (a debug assertion) or return nonsense, but the descriptor the kernel delivered is
+    // owned by then and is closed exactly once, come what may. Done before the modelled history.
+    let mut preamble: Option<String> = None;
+    let mut did_preamble = false;
+    if r.chance(1, 8) {
+        did_preamble = true;
+        const LISTENER: i32 = 7_000_000;
+        const ACCEPTED: i32 = 7_000_001;
+        simk::add_fake_fd(LISTENER);
+        simk::add_fake_fd(ACCEPTED);
+        let lfd = unsafe { AsyncFd::from_raw_fd(LISTENER, sq.clone()) };
+        let waker = std::task::Waker::noop();
+        {
+            let mut fut = Box::pin(lfd.accept::<std::net::SocketAddrV4>());
+            let mut ctx = std::task::Context::from_waker(waker);
+            let _ = fut.as_mut().poll(&mut ctx);
+            let _ = ring.poll(Some(Duration::ZERO));
+            let done = simk::with(|s| {
+                let q = s.inflight.iter().find(|q| q.sqe.fd == LISTENER).map(|q| (q.req, q.sqe.off))?;
+                // The kernel writes the address length it used into the cell `addr2` points at.
+                unsafe { (q.1 as usize as *mut u32).write(28) };
+                s.complete(q.0, ACCEPTED, 0);
+                Some(())
+            });
+            let _ = ring.poll(Some(Duration::ZERO));
+            let res = std::panic::catch_unwind(std::panic::AssertUnwindSafe(|| fut.as_mut().poll(&mut ctx)));
+            let _ = silent.lock().unwrap().take();
+            if done.is_none() {
+                preamble = Some("the accept of the preamble never reached the kernel".into());
+            }
+            // Whatever came out (a socket with a nonsense address, or a panic) is dropped here.
+            drop(res);
+            let _ = std::panic::catch_unwind(std::panic::AssertUnwindSafe(move || drop(fut)));
+        }
+        let _ = ring.poll(Some(Duration::ZERO));
+        let by_sqe = simk::with(|s| s.take_log()).iter().filter(|e| matches!(e, Ev::Consumed { sqe, .. } if sqe.opcode == abi::OP_CLOSE && sqe.fd == ACCEPTED && sqe.file_index == 0)).count();
+        let by_call = simk::take_closes().iter().filter(|fd| **fd == ACCEPTED).count();
+        if by_sqe + by_call != 1 && preamble.is_none() {
+            preamble = Some(format!(
+                "accept::<SocketAddrV4>() completed with descriptor {ACCEPTED} and a 28-byte address: the descriptor was closed {} times (expected once: it is owned by an AsyncFd before the address is converted, whatever the conversion does)",
+                by_sqe + by_call
+            ));
+        }
+        drop(lfd);
+        let _ = ring.poll(Some(Duration::ZERO));
+        let _ = simk::take_closes();
+    }
     let _ = simk::with(|s| s.take_log());
     let mut w = World {
         ring: Some(ring),
@@ -1236,6 +1285,12 @@ fn one_case(r: &mut Rng, silent: &Arc<Mutex<Option<String>>>) -> Case {
         fallback_fds: BTreeMap::new(),
         base_fds: open_fds(),
     };
+    if let Some(m) = preamble {
+        w.fail(m);
+    }
+    if did_preamble {
+        w.tags.insert("preamble:accept-with-mismatching-address-type".into());
+    }
     let mut events: Vec<Event> = Vec::new();
     for _ in 0..n_events {
         if w.violation.is_some() {
@@ -1310,7 +1365,7 @@ fn one_case(r: &mut Rng, silent: &Arc<Mutex<Option<String>>>) -> Case {
             unknown_leak = Some(format!("{what} is still open after its AsyncFd was dropped and the ring consumed its queue: never closed"));
         }
     }
-    let (oracle, known) = match (w.violation.take(), unknown_leak) {
+    let (mut oracle, known) = match (w.violation.take(), unknown_leak) {
         (Some(v), _) => (Some(v), None),
         (None, Some(l)) => (Some(l), None),
         (None, None) => (leak_msg, known),
@@ -1332,6 +1387,15 @@ fn one_case(r: &mut Rng, silent: &Arc<Mutex<Option<String>>>) -> Case {
     w.sq = None;
     let ring = w.ring.take();
     let _ = std::panic::catch_unwind(std::panic::AssertUnwindSafe(move || drop(ring)));
+    // Every holder of the ring's shared state is gone now (the Ring, the SubmissionQueue clones, the
+    // AsyncFds, the operation and close futures): the last one closes the ring's descriptor.
+    // `close(self)` must hand the AsyncFd's SubmissionQueue over to the future, not copy it.
+    if unsafe { libc::fcntl(ring_fd, libc::F_GETFD) } != -1 && oracle.is_none() && w.violation.is_none() {
+        oracle = Some(format!(
+            "the Ring, every SubmissionQueue clone, every AsyncFd and every future of the history are dropped, but the ring's descriptor is still open (and its submission queue mapped): a reference to the ring's shared state was leaked ({} explicit close() calls in the history)",
+            w.closes.len()
+        ));
+    }
     simk::retire(ring_fd);
     let _ = simk::take_closes();
     // Real descriptors nothing closed (known findings, or a violation): not to be inherited by
